@@ -35,9 +35,68 @@ def _pool_digest(args):
     return pid, digests(pid, n)
 
 
+def _one_mutant(args):
+    """apply one patch to a scratch copy of the repository, run the baseline tests and the named quick check."""
+    import shutil
+    import tempfile
+    patch, pid, jobs = args
+    verif = os.path.dirname(os.path.dirname(os.path.abspath(__file__)))
+    repo = os.environ.get("VERIF_REPO", "/repo")
+    d = tempfile.mkdtemp(prefix="verif-mut.")
+    try:
+        shutil.copytree(os.path.join(repo, "websocket"), os.path.join(d, "repo", "websocket"),
+                        ignore=shutil.ignore_patterns("__pycache__"))
+        os.makedirs(os.path.join(d, "out"))
+        a = subprocess.run(["patch", "-p1", "-s", "-i", patch], cwd=os.path.join(d, "repo"), capture_output=True, text=True)
+        if a.returncode != 0:
+            return patch, pid, "patch-failed", a.stdout + a.stderr
+        t = subprocess.run([sys.executable, "-m", "pytest", "-q", "-p", "no:cacheprovider", "-x", "websocket/tests"],
+                           cwd=os.path.join(d, "repo"), capture_output=True, text=True, timeout=600,
+                           env=dict(os.environ, PYTHONPATH=os.path.join(d, "repo")))
+        tests_ok = t.returncode == 0
+        env = dict(os.environ, VERIF_REPO=os.path.join(d, "repo"), VERIF_OUT=os.path.join(d, "out"), VERIF_JOBS=str(jobs))
+        c = subprocess.run([os.path.join(verif, "check"), pid, "quick"], capture_output=True, text=True, env=env, timeout=1500)
+        clauses = sorted(set(l.split("clause=")[1].split()[0] for l in c.stdout.splitlines() if "clause=" in l and "KNOWN" not in l))
+        verdict = "caught" if c.returncode == 1 and "VIOLATION property=" + pid in c.stdout else \
+            ("harness-error" if c.returncode == 2 else "MISSED")
+        return patch, pid, verdict + ("" if tests_ok else " (NOTE: baseline tests fail with this patch)"), ",".join(clauses)
+    finally:
+        shutil.rmtree(d, ignore_errors=True)
+
+
+def sensitivity(argv):
+    verif = os.path.dirname(os.path.dirname(os.path.abspath(__file__)))
+    pats = [a for a in argv if not a.startswith("-")]
+    files = sorted(glob.glob(os.path.join(verif, "selftest", "mutants", "*.diff")))
+    files += sorted(glob.glob(os.path.join(verif, "seeded", "*", "patch.diff")))
+    work = []
+    for f in files:
+        name = os.path.basename(f) if "mutants" in f else os.path.basename(os.path.dirname(f))
+        if pats and not any(p.lower() in name.lower() for p in pats):
+            continue
+        if "mutants" in f:
+            pid = name.split("_")[0].upper()
+        else:
+            with open(os.path.join(os.path.dirname(f), "meta.json")) as fh:
+                pid = json.load(fh)["property"]
+        work.append((f, pid, 4))
+    missed = 0
+    ctx = mp.get_context("fork")
+    with cf.ThreadPoolExecutor(max_workers=4) as ex:
+        for patch, pid, verdict, info in ex.map(_one_mutant, work):
+            label = os.path.basename(patch) if "mutants" in patch else "seeded/" + os.path.basename(os.path.dirname(patch))
+            print(f"{verdict:8s} {pid} {label}  {info[:160]}")
+            if not verdict.startswith("caught"):
+                missed += 1
+    print(f"sensitivity: {len(work) - missed}/{len(work)} breaking changes caught by the quick check of their property")
+    return 0 if missed == 0 else 1
+
+
 def main(argv):
+    if argv and argv[0] == "sensitivity":
+        return sensitivity(argv[1:])
     if not argv or argv[0] != "determinism":
-        print("usage: --selftest determinism [n] [--emit]")
+        print("usage: --selftest determinism [n] [--emit] | --selftest sensitivity [name-filter ...]")
         return 2
     n = 25
     emit = "--emit" in argv
